@@ -51,6 +51,18 @@ def run(tier):
             for v in range(1 if tier == 'quick' else 3):
                 idx = rnd.sample(range(size), n)
                 cases.append((db, idx, 'shuffle'))
+        # unsorted registries that look sorted to a careless isSorted(): first entry is the minimum, or one adjacent pair swapped
+        for n in ([6, 9, 17] if tier == 'quick' else [6, 7, 9, 12, 17, 25, 40]):
+            base_idx = sorted(rnd.sample(range(size), n))
+            tail = base_idx[1:]
+            rnd.shuffle(tail)
+            if tail == sorted(tail):
+                tail[0], tail[-1] = tail[-1], tail[0]
+            cases.append((db, [base_idx[0]] + tail, 'shuffle'))
+            for pos in (0, n // 2, n - 2):
+                sw = list(base_idx)
+                sw[pos], sw[pos + 1] = sw[pos + 1], sw[pos]
+                cases.append((db, sw, 'shuffle'))
         cases.append((db, list(range(size)), 'full'))
     # ---- the model: TLC on Registrar.tla (safety incl. probe sequences; liveness; as-found variant refuted)
     extra = {'sizes': sorted({len(v) for v in dbs.values()}), 'perms': []}
